@@ -11,7 +11,11 @@ typedef std::vector<long> LV;
 
 static bool big = false;
 static long LIM = 1000000;
-static long L(const Coefficient& c) { if (!c.fits_slong_p() || c > LIM || c < -LIM) { big = true; return 0; } return c.get_si(); }
+static long L(const Coefficient& c) {  // portable across coefficient configurations (GMP or checked native integers)
+  long v = 0; Result r = assign_r(v, c, ROUND_DOWN);
+  if (r != V_EQ || v > LIM || v < -LIM) { big = true; return 0; }
+  return v;
+}
 
 static std::string row(const char* k, const LV& v) { return std::string("{\"k\":\"") + k + "\",\"v\":" + vj::arr(v) + "}"; }
 static std::string jsH(const Constraint_System& cs, unsigned n) {
@@ -56,7 +60,13 @@ static std::string status_line(const Polyhedron& p) {
   size_t p1 = d.find('\n'); size_t p2 = d.find('\n', p1 + 1);
   return (p1 == std::string::npos || p2 == std::string::npos) ? "" : d.substr(p1 + 1, p2 - p1 - 1);
 }
+static std::string desc1(const Slot& s);
+// projecting the state may itself overflow in bounded-coefficient builds: that is not the call's outcome, the event is undecided
 static std::string desc(const Slot& s) {
+  try { return desc1(s); }
+  catch (std::exception&) { big = true; return "{\"alive\":false,\"n\":0,\"topo\":\"C\",\"H\":[],\"V\":[],\"st\":\"projection-threw\",\"ok\":true}"; }
+}
+static std::string desc1(const Slot& s) {
   if (!s.p) return "{\"alive\":false,\"n\":0,\"topo\":\"C\",\"H\":[],\"V\":[],\"st\":\"\",\"ok\":true}";
   unsigned n = s.p->space_dimension();
   Polyhedron* a = clone(s); Polyhedron* b = clone(s);
